@@ -18,7 +18,12 @@ import time
 VERIF = os.path.dirname(os.path.dirname(os.path.abspath(__file__)))
 REPO = os.environ.get("HGV_REPO", "/repo")
 CACHE = os.path.join(VERIF, ".cache")
-OBJ = os.environ.get("HGV_OBJ_CACHE") or os.path.join(CACHE, "obj")
+# The object cache is shared by every worktree of /verif on this machine (content-addressed, safe).
+_SHARED = "/verif/.cache/obj"
+OBJ = os.environ.get("HGV_OBJ_CACHE") or (_SHARED if os.path.isdir(_SHARED) else os.path.join(CACHE, "obj"))
+# Machine-wide cap on concurrent C++ compiles (each cc1plus needs 1-4 GB): slots are lock files.
+SLOT_DIR = "/var/tmp/hgv-slots"
+NSLOTS = int(os.environ.get("HGV_COMPILE_SLOTS", "14"))
 GEN = os.path.join(os.path.dirname(OBJ), "gen")
 SITE = "/venv/lib/python3.12/site-packages"
 CXX = "g++"
@@ -95,6 +100,30 @@ def repo_tus():
     return sorted(out)
 
 
+class CompileSlot:
+    """One of NSLOTS machine-wide compile slots (flock on a slot file; blocks until one is free)."""
+
+    def __enter__(self):
+        os.makedirs(SLOT_DIR, exist_ok=True)
+        import random as _r
+        while True:
+            order = list(range(NSLOTS))
+            _r.shuffle(order)
+            for k in order:
+                f = open(os.path.join(SLOT_DIR, "slot-%d" % k), "w")
+                try:
+                    fcntl.flock(f, fcntl.LOCK_EX | fcntl.LOCK_NB)
+                    self.f = f
+                    return self
+                except OSError:
+                    f.close()
+            time.sleep(0.5 + _r.random())
+
+    def __exit__(self, *a):
+        fcntl.flock(self.f, fcntl.LOCK_UN)
+        self.f.close()
+
+
 class DepDB:
     def __init__(self):
         self.path = os.path.join(CACHE, "deps.json")
@@ -141,7 +170,11 @@ def compile_one(src_abs, fl, deps_known):
             return obj, deps_known, ""
     tmp = os.path.join(OBJ, "tmp-%d-%s" % (os.getpid(), hashlib.md5(src_abs.encode()).hexdigest()))
     cmd = [CXX] + fl + ["-MMD", "-MF", tmp + ".d", "-c", src_abs, "-o", tmp + ".o"]
-    p = subprocess.run(cmd, capture_output=True, text=True)
+    with CompileSlot():
+        # another process may have produced the object while we waited for a slot
+        if deps_known is not None and os.path.exists(obj):
+            return obj, deps_known, ""
+        p = subprocess.run(cmd, capture_output=True, text=True)
     if p.returncode != 0:
         for e in (".d", ".o"):
             if os.path.exists(tmp + e):
